@@ -298,8 +298,30 @@ impl Verify for Residual {
             )?;
         }
 
+        verify_range!(
+            "partition_order",
+            self.partition_order(),
+            ..=(crate::constant::rice::MAX_PARTITION_ORDER)
+        )?;
         let partition_count = 1 << self.partition_order();
+        verify_true!(
+            "rice_params.len",
+            self.rice_params().len() == partition_count,
+            "must have one parameter for each partition"
+        )?;
+        for (p, rice_p) in self.rice_params().iter().enumerate() {
+            verify_range!(
+                "rice_params[{p}]",
+                *rice_p as usize,
+                ..=(crate::constant::rice::MAX_RICE_PARAMETER)
+            )?;
+        }
         let partition_len = self.block_size() / partition_count;
+        verify_true!(
+            "partition_order",
+            partition_len > 0,
+            "must not yield more partitions than samples in the block"
+        )?;
         for t in 0..self.block_size() {
             let rice_p = self.rice_params()[t / partition_len];
             verify_range!("remainders[{t}]", self.remainders()[t], ..(1 << rice_p))?;
